@@ -211,21 +211,23 @@ def translate_new(fn):
     emit(fn.body, False)
     return out
 
+PROGRAM_CLASSES = ("Dimension", "Prefix", "Unit", "Logarithm", "LogarithmicUnit")      # every class that interns its instances in a _known table
+
 def programs():
     """{class name: {"prog": [(instr, line)], "first": first line, "last": last line of __new__}}"""
     tree = ast.parse(open(os.path.join(SRC, "__init__.py")).read())
     res = {}
     for cls in tree.body:
-        if isinstance(cls, ast.ClassDef) and cls.name in ("Dimension", "Prefix", "Unit"):
+        if isinstance(cls, ast.ClassDef) and cls.name in PROGRAM_CLASSES:
             for fn in cls.body:
                 if isinstance(fn, ast.FunctionDef) and fn.name == "__new__":
                     res[cls.name] = {"prog": translate_new(fn), "first": fn.lineno, "last": fn.end_lineno}
-    if sorted(res) != ["Dimension", "Prefix", "Unit"]: raise Untranslatable("missing __new__: " + str(sorted(res)))
+    if sorted(res) != sorted(PROGRAM_CLASSES): raise Untranslatable("missing __new__: " + str(sorted(res)))
     return res
 
 def coq_programs(pr):
     lines = ["From Coq Require Import List Bool. Import ListNotations.", "From Measured Require Import Model.NewProg.", ""]
-    for c in ("Dimension", "Prefix", "Unit"):
+    for c in PROGRAM_CLASSES:
         lines.append(f"Definition {c.lower()}_prog : list instr := [" + "; ".join(i for i, _ in pr[c]["prog"]) + "].")
     return "\n".join(lines) + "\n"
 
